@@ -134,9 +134,59 @@ def run(ctx):
         cases.append((rng.choice(gl.FACTORIES), edges, queries_for(rng, edges)))
     for i in range(0, len(cases), 200):
         evaluate(ctx, cases[i:i + 200], 'random')
+    lifecycle(ctx, rng)
+
+
+def lifecycle(ctx, rng):
+    """the helpers keep nothing between calls: a call that RAISES half-way through a collection (an unknown term at its end), a
+    collection whose iterator itself calls the helper on the same graph - the next valid call must be the union of the closures"""
+    from hpotk.algorithm import _augment as au
+    _, TermId, _, _ = gl._hp()
+    for _ in range(12):
+        edges = gl.random_dag(rng, n=rng.randrange(4, 10))[0]
+        nodes = gl.nodes_of(edges)
+        for f in gl.FACTORIES:
+            g = gl.build_impl(f, edges)
+            for fname in ('ancestors', 'descendants'):
+                fn = au.augment_with_ancestors if fname == 'ancestors' else au.augment_with_descendants
+                single = {v: set(gl.vals(fn(g, TermId.from_curie(v), True))) for v in nodes}
+                picks = [rng.sample(nodes, rng.randrange(1, min(4, len(nodes)) + 1)) for _ in range(3)]
+                ctx.case(['lifecycle', f, edges, fname, picks], True, 'helper lifecycle (exception / re-entrancy)')
+                problem = None
+                try:
+                    # (1) a failing call in between
+                    try:
+                        fn(g, [TermId.from_curie(v) for v in picks[0]] + [TermId.from_curie('ZZ:404')], True)
+                        problem = 'a collection containing an unknown term was accepted'
+                    except ValueError:
+                        pass
+                    got = set(gl.vals(fn(g, [TermId.from_curie(v) for v in picks[1]], True)))
+                    want = set().union(*[single[v] for v in picks[1]])
+                    if problem is None and got != want:
+                        problem = f'after a call that raised, augment_with_{fname}({picks[1]}) = {sorted(got)} != {sorted(want)}'
+                    # (2) re-entrancy: the collection's iterator calls the helper itself
+
+                    class Nosy(list):
+                        def __iter__(self):
+                            for x in list.__iter__(self):
+                                fn(g, [TermId.from_curie(v) for v in picks[0]], False)
+                                yield x
+                    got = set(gl.vals(fn(g, Nosy(TermId.from_curie(v) for v in picks[2]), True)))
+                    want = set().union(*[single[v] for v in picks[2]])
+                    if problem is None and got != want:
+                        problem = f'augment_with_{fname} over a collection whose iterator calls the helper: {sorted(got)} != {sorted(want)}'
+                except Exception as e:  # noqa
+                    problem = f'raises {type(e).__name__}: {e}'
+                if problem:
+                    ctx.violation(f'{f}:lifecycle:{fname}', {'case': {'kind': 'lifecycle', 'factory': f, 'edges': edges, 'picks': picks}, 'impl': problem,
+                                                             'theorem': 'Hpv.Props.C18.augment_many'})
+                    return
 
 
 def replay(ctx, data):
     c = data['case']
+    if c.get('kind') == 'lifecycle':
+        lifecycle(ctx, ctx.rng)
+        return
     edges = [tuple(e) for e in c['edges']]
     evaluate(ctx, [(c['factory'], edges, queries_for(ctx.rng, edges))], 'replay')
